@@ -70,6 +70,7 @@ type History struct {
 
 func (h History) maybeScheduleUpgrade(w *world.World, bi int) {
 	if h.UpgradeAtBlock > 0 && bi == h.UpgradeAtBlock {
+		w.AsWrittenByPredecessor()
 		if err := w.App.UpgradeKeeper.ScheduleUpgrade(w.Ctx(), upgradetypes.Plan{Name: h.UpgradeName, Height: w.Height + 1}); err != nil {
 			panic(err)
 		}
@@ -146,6 +147,9 @@ func hashEvents(evs []abci.Event) string {
 func obsTx(r abci.ResponseDeliverTx) TxObs {
 	return TxObs{Code: r.Code, Codespace: r.Codespace, Data: hex.EncodeToString(r.Data), GasWanted: r.GasWanted, GasUsed: r.GasUsed, Events: hashEvents(r.Events)}
 }
+
+// every account of a twin history also holds the staking denomination (the Delegate entry of the alphabet)
+var twinExtraCoins = sdk.NewCoins(sdk.NewInt64Coin(sdk.DefaultBondDenom, 1000000))
 
 // twinEnv: the fixed cast of the mixed alphabet.
 type twinEnv struct {
@@ -240,9 +244,9 @@ func (e *twinEnv) mixedOps() []mixedOp {
 		one("TransferDenom(d,A->B)", s(e.A), pnfttypes.NewMsgTransferRequest("d", e.A.Bech, e.B.Bech)),
 		one("UpdateDenom(d,A)", s(e.A), pnfttypes.NewMsgUpdateDenomRequest("d", "", "renamed", "", "", "", "", e.A.Bech)),
 		// a staking operation: fires the distribution / slashing hooks wired into the staking keeper
-		{"Delegate(B->validator,1000umed)", func(w *world.World) world.TxSpec {
+		{"Delegate(B->validator,1000stake)", func(w *world.World) world.TxSpec {
 			val := w.App.StakingKeeper.GetAllValidators(w.Ctx())[0]
-			return world.TxSpec{Msgs: []sdk.Msg{stakingtypes.NewMsgDelegate(e.B.Addr, val.GetOperator(), sdk.NewInt64Coin("umed", 1000))}, Signers: s(e.B), Fee: aolFee, Gas: 400000}
+			return world.TxSpec{Msgs: []sdk.Msg{stakingtypes.NewMsgDelegate(e.B.Addr, val.GetOperator(), sdk.NewInt64Coin(w.App.StakingKeeper.BondDenom(w.Ctx()), 1000))}, Signers: s(e.B), Fee: aolFee, Gas: 400000}
 		}},
 	}
 }
@@ -276,7 +280,7 @@ func (e *twinEnv) buildHistoryG(blocks [][]int, genesis string) (History, []Bloc
 // buildHistoryU: as buildHistoryG, with a software upgrade scheduled at the start of history block upgradeAt (> 0).
 func (e *twinEnv) buildHistoryU(blocks [][]int, genesis string, upgradeAt int, upgradeName string) (History, []BlockObs) {
 	ops := e.mixedOps()
-	w := world.New(world.Options{Accounts: e.accounts(), Mutate: genesisVariants[genesis]})
+	w := world.New(world.Options{Accounts: e.accounts(), Mutate: genesisVariants[genesis], ExtraCoins: twinExtraCoins})
 	h := History{Genesis: genesis, UpgradeAtBlock: upgradeAt, UpgradeName: upgradeName}
 	for _, a := range e.accounts() {
 		h.Accounts = append(h.Accounts, a.Name)
@@ -364,7 +368,7 @@ func (e *twinEnv) execHistory(h History, o RunOpts, db dbm.DB) (res ExecResult) 
 		call = -1 << 30 // stop points do not apply to a resumed run
 		w.BeginBlock()
 	} else {
-		w = world.New(world.Options{Accounts: accs, DB: db, Mutate: genesisVariants[h.Genesis], Node: world.NodeConfig{MinGasPrices: o.MinGasPrices, InterBlockCache: o.InterBlockCache}})
+		w = world.New(world.Options{Accounts: accs, DB: db, Mutate: genesisVariants[h.Genesis], ExtraCoins: twinExtraCoins, Node: world.NodeConfig{MinGasPrices: o.MinGasPrices, InterBlockCache: o.InterBlockCache}})
 	}
 	after := func() bool { // bookkeeping after one ABCI call; true = stop now
 		if o.QueriesBetween || o.ExtraAt[call] == "query" {
